@@ -194,8 +194,13 @@ def make_env(cfg, rec):
     return env
 
 
-def norm_msg(args):
-    return tuple(a if isinstance(a, str) else None for a in args)
+# which leading arguments of each function are message strings (Babel's keyword specification:
+# gettext 1; ngettext 1,2; pgettext 1c,2; npgettext 1c,2,3)
+NSTR = {"gettext": 1, "_": 1, "ngettext": 2, "pgettext": 2, "npgettext": 3}
+
+
+def norm_msg(func, args):
+    return tuple(a if isinstance(a, str) else None for a in tuple(args)[:NSTR[func]])
 
 
 def extracted_sets(src, cfg, env):
@@ -204,13 +209,13 @@ def extracted_sets(src, cfg, env):
 
     newstyle, autoescape, policy = cfg
 
-    def norm(m):
-        return (m,) if (isinstance(m, str) or m is None) else tuple(m)
+    def norm(f, m):
+        return norm_msg(f, (m,) if (isinstance(m, str) or m is None) else m)
 
-    a = {(f, norm(m)) for _, f, m in ext.extract_from_ast(env.parse(src), ext.GETTEXT_FUNCTIONS)}
+    a = {(f, norm(f, m)) for _, f, m in ext.extract_from_ast(env.parse(src), ext.GETTEXT_FUNCTIONS)}
     opts = {"trimmed": "true" if policy else "false", "newstyle_gettext": "true" if newstyle else "false",
             "silent": "false"}
-    b = {(f, norm(m)) for _, f, m, _ in ext.babel_extract(io.BytesIO(src.encode("utf-8")), ext.GETTEXT_FUNCTIONS,
+    b = {(f, norm(f, m)) for _, f, m, _ in ext.babel_extract(io.BytesIO(src.encode("utf-8")), ext.GETTEXT_FUNCTIONS,
                                                          [], opts)}
     return a, b
 
@@ -260,7 +265,7 @@ def evaluate(src, expect, cfg, extract=True):
             elif m[3] is not None and rec[0][1][-1] != m[3]:
                 fails.append(("wrong-count", "count=%d: call %r, expected count argument %r" % (c, rec[0], m[3])))
         for f, args in rec:
-            seen_calls.add((f, norm_msg(args)))
+            seen_calls.add((f, norm_msg(f, args)))
         tags.append("form:" + ("same" if out == expect(1)[1] else "other"))
     if extract:
         try:
